@@ -324,7 +324,7 @@ def run_tiers(prop, tier, seed, budget, cfg, t0):
     extra = {}
     level = cfg["level"]
     # interpreter / sanitizer tiers re-run a slice of the same workload
-    if cfg.get("miri"):
+    if cfg.get("miri") and (tier == "thorough" or cfg["miri"].get("quick_procs", 0) > 0):
         mr, mp, info = run_miri_slice(prop, tier, seed, cfg)
         extra["miri"] = info
         problems += mp
